@@ -1006,11 +1006,21 @@ impl Router {
             self.scheduler.track(id, request);
             self.scheduler.reschedule(id, ScheduleReason::NewFilter);
             debug_assert!(self.scheduler.check_tracker_duplicates(id).is_none())
+        } else {
+            // a repeated subscription replaces the options of the existing one: the request
+            // keeps its place in the log, from now on it is served with the granted QoS.
+            // The request is tracked, parked on its log, or woken earlier in this batch
+            let qos = filter.qos as u8;
+            self.scheduler.update_qos(id, filter_path, qos);
+            self.datalog.update_waiter_qos(id, filter_path, qos);
+            for (connection_id, request) in self.notifications.iter_mut() {
+                if *connection_id == id && request.filter == *filter_path {
+                    request.qos = qos;
+                }
+            }
         }
 
-        // TODO: figure out how we can update existing DataRequest
-        // helpful in re-subscriptions and forwarding retained messages on
-        // every subscribe
+        // TODO: forwarding retained messages on every subscribe
 
         let meter = &mut self.ibufs.get_mut(id).unwrap().meter;
         meter.register_subscription(filter_path.clone());
